@@ -97,7 +97,8 @@ class G:
 
 
 FS_ERRS = {"write": ["ENOSPC", "EIO", "EDQUOT"], "ftruncate": ["EIO", "EINTR"], "open": ["EACCES", "EMFILE", "ENOSPC", "EINTR"], "lock": ["ENOLCK", "EINTR"], "unlock": ["ENOLCK"], "read": ["EIO"],
-           "remove": ["EACCES", "EBUSY", "EIO"], "fstat": ["EIO"], "opendir": ["EMFILE", "EACCES"], "lstat": ["EIO"], "readdir": ["EIO"], "mkdir": ["ENOSPC"], "rmdir": ["EBUSY"]}
+           "remove": ["EACCES", "EBUSY", "EIO"], "fstat": ["EIO"], "opendir": ["EMFILE", "EACCES"], "lstat": ["EIO"], "readdir": ["EIO"], "mkdir": ["ENOSPC"], "rmdir": ["EBUSY"],
+           "sync": ["EIO"], "access": ["EIO"]}      # the last two exist only below SQLite (VFS seam)
 
 def place_faults(plan, z, seed, per_op=1):
     """two-pass fault placement (DESIGN 2.5): run the plan once without faults to learn how many file operations of each kind every candidate call
